@@ -78,9 +78,15 @@ Inductive value :=
 | VParam (p : param) | VDict (d : dict)
 | VErr.                                        (* the program did something the language gives no meaning to *)
 
-Definition env := var -> value.
-Definition env0 : env := fun _ => VErr.
-Definition set (e : env) (x : var) (v : value) : env := fun y => if N.eqb x y then v else e y.
+(* the locals: an association list, most recent binding first; an unbound name reads as VErr *)
+Definition env := list (var * value).
+Definition env0 : env := [].
+Definition set (e : env) (x : var) (v : value) : env := (x, v) :: e.
+Fixpoint get (e : env) (x : var) : value :=
+  match e with
+  | [] => VErr
+  | (y, v) :: r => if N.eqb y x then v else get r x
+  end.
 
 Fixpoint same_len {A B} (a : list A) (b : list B) : bool :=
   match a, b with
@@ -171,7 +177,7 @@ Section Eval.
 
   Fixpoint eval (x : expr) (e : env) : value :=
     match x with
-    | EVar v => e v
+    | EVar v => get e v
     | ENone => VNone
     | EInt z => VInt z
     | EStr t => VStr t
